@@ -46,7 +46,7 @@ fn colourise(r: &mut Rng, plain: &str, avoid_hyphen: bool) -> String {
 }
 
 fn gen(r: &mut Rng, _cfg: &RunCfg) -> Case {
-    let m = Mix::swarm(r, &[Class::Ascii, Class::Wide, Class::Zero, Class::Punct, Class::Space, Class::Para, Class::Prefix, Class::Scalars]);
+    let m = Mix::swarm(r, &[Class::Ascii, Class::Wide, Class::Zero, Class::Punct, Class::Space, Class::Para, Class::Prefix, Class::Scalars, Class::Real, Class::Repeat]);
     let n = crate::gen::text::ntok(r).max(1);
     let plain = m.text(r, n);
     let width = if r.chance(1, 10) { r.range(26, 90) } else { r.range(0, 25) };
